@@ -3,6 +3,7 @@ package gendoc
 import (
 	"fmt"
 	"math/rand"
+	"strings"
 )
 
 // GenOpts steers the random document generator.
@@ -217,13 +218,20 @@ func Generate(r *rand.Rand, o GenOpts) (*Doc, map[string]int) {
 		kinds = Kinds
 	}
 	prefix := map[string]string{"schemas": "S", "parameters": "P", "securitySchemes": "Sec", "requestBodies": "B", "responses": "R", "headers": "H", "examples": "E", "links": "L", "callbacks": "C"}
+	chain := r.Intn(2) == 0
 	for _, k := range kinds {
 		n := r.Intn(o.MaxComps + 1)
 		if k == "schemas" && n == 0 {
 			n = 1
 		}
+		// half of the documents name their components so that each name is a proper prefix of the next ones
+		// (S, Sx, Sxx ...): references are compared as whole strings, never by prefix
 		for i := 0; i < n; i++ {
-			g.names[k] = append(g.names[k], fmt.Sprintf("%s%d", prefix[k], i))
+			if chain {
+				g.names[k] = append(g.names[k], prefix[k]+strings.Repeat("x", i))
+			} else {
+				g.names[k] = append(g.names[k], fmt.Sprintf("%s%d", prefix[k], i))
+			}
 		}
 	}
 	d := &Doc{}
